@@ -194,6 +194,20 @@ macro_rules! set_impl {
                             let sk2 = ns::PrivateKey::try_from_bytes(sk.into_bytes()).map_err(|e| e.to_string())?;
                             Ok((pk2, sk2))
                         }
+                        "try_from_bytes:rho=0" | "try_from_bytes:K=0,tr=0" | "try_from_bytes:rho=K=tr=0" => {
+                            let (pk, sk) = ns::KG::keygen_from_seed(xi);
+                            let (mut pkb, mut skb) = (pk.into_bytes(), sk.into_bytes());
+                            if prov.contains("rho=") {
+                                pkb[..32].fill(0);
+                                skb[..32].fill(0);
+                            }
+                            if prov.contains("K=") {
+                                skb[32..128].fill(0);
+                            }
+                            let pk2 = ns::PublicKey::try_from_bytes(pkb).map_err(|e| e.to_string())?;
+                            let sk2 = ns::PrivateKey::try_from_bytes(skb).map_err(|e| e.to_string())?;
+                            Ok((pk2, sk2))
+                        }
                         _ => Err(format!("unknown provenance {prov}")),
                     }
                 };
